@@ -641,7 +641,7 @@ def check_property(pid, tier, seed):
             choices = (e.get('end') or {}).get('choices') or []
             rp = replay_prog(e['prog'], choices) if choices else json.loads(json.dumps(e['prog']))
             again = None
-            for attempt in range(1 if rp['sched']['kind'] != 'free' else 6):
+            for attempt in range(3 if rp['sched']['kind'] != 'free' else 6):      # (a replayed schedule can still go astray when the machine is loaded)
                 if epid == 'C12codec':
                     cand = run_codec('r%d' % attempt)
                     v, r2 = tlc_obs_confirm(scratch, cand, invs, 'codec-%d' % attempt)
